@@ -82,6 +82,11 @@ CHECKS["C10"] = ("exploration",
    "Utf8LossyDecoder: every byte string of length <=5 (6 thorough) over a 17-byte alphabet covering every lead/continuation class of the UTF-8 table, under all 2^(n-1) chunkings plus an empty chunk at every position of every 2-chunk split: concatenated output == String::from_utf8_lossy, error count == number of U+FFFD, every delivered tendril valid UTF-8. from_utf8(): parse tree (html5ever and xml5ever, model sink) of every byte string <=4 (5) over a 12-byte markup alphabet under all chunkings == tree of the lossy string, with one sink error per replacement. LossyDecoder: all 39 non-UTF-8 encoding_rs encodings over per-family alphabets (ASCII, lead, trail, invalid trail, ESC sequences, surrogate halves, BOM prefixes) up to length 4 (5), all chunkings, == Encoding::decode one-shot, including everything still pending at end of stream.",
    "Trusted base: std's from_utf8_lossy and encoding_rs's one-shot decode. Byte space is alphabet-bounded (3-17 bytes per family).",
    "DESIGN.md §3 C10", "E4 sweep")
+CHECKS["C07"] = ("exploration",
+   "exhaustive enumeration of small trees x all short strings through serialize -> parse_fragment, plus inner/outer and spec-serialization comparison on parsed trees",
+   "(a) 8 tree shapes of ordinary elements (div, span, section, x-y; attributes id, data-x; text children) built directly through TreeSink calls on RcDom, with every text and attribute value ranging over all strings of length <=3 (4 thorough) over 22 symbols (& < > \" ' NBSP U+00A2 U+0080 U+FFFD U+1F600 LF ...) and all pairs of strings of length <=2; serialize(ChildrenOnly) then parse_fragment(div) must reproduce the tree exactly and the output must be valid UTF-8; memchr window sweep (0..40/70 a's with one or two specials at every position). (b) For every element of every parsed tree of a 28k-input corpus (all pairs of tree lexemes followed by special characters, raw-text / RCDATA / foreign elements named like raw-text ones, noscript x scripting flag): IncludeNode output == start tag + ChildrenOnly(Some(name)) output + end tag, and the document serialization equals R-ser, a 60-line transliteration of 'serializing HTML fragments'.",
+   "String space bounded by alphabet and length; element vocabulary fixed by the property. R-ser follows html5ever in escaping < and > in attribute mode.",
+   "DESIGN.md §3 C07", "E4 sweep")
 PENDING = {}
 def main():
     checks = []
